@@ -174,15 +174,17 @@ FloatMatch(p) ==
          IN [type |-> "hexadecimal", c |-> hc, x |-> x, s |-> Run(p + hc + x, DotWord), xs |-> xs, hf |-> hf]
     ELSE NoFloat
 
-(* re.match(r"[eE][-+]?\d+", Exponent) *)
-GoodExponent(p) == /\ Ch(p) \in {"e", "E"}
-                   /\ LET s == IF Ch(p + 1) \in Sign THEN 1 ELSE 0 IN Ch(p + 1 + s) \in Digit
+(* re.match(rf"[{mark}][-+]?\d+", Exponent) *)
+GoodExponent(p, E) == /\ Ch(p) \in E
+                      /\ LET s == IF Ch(p + 1) \in Sign THEN 1 ELSE 0 IN Ch(p + 1 + s) \in Digit
 
 HasDot(p, n) == \E j \in 0..(n - 1) : Ch(p + j) = "."
 
 (* INT_LITERAL_PATTERN; result [pre, c, s] lengths, c = 0: no match *)
 IntMatch(p) ==
-    LET k == IF Ch(p) = "0" THEN Run(p + 1, {"b", "B", "x", "X"}) ELSE 0
+    LET k == IF Ch(p) # "0" THEN 0          \* 0(?:[xX]+|[bB]+)? : a run of ONE kind of prefix letter
+             ELSE IF Ch(p + 1) \in {"x", "X"} THEN Run(p + 1, {"x", "X"})
+             ELSE Run(p + 1, {"b", "B"})
         \* candidate prefix lengths, longest first; 0 = empty prefix
         Cand(pl) ==     \* constant length for prefix length pl, 0 = fails
             IF pl = 2 /\ Ch(p + 1) \in {"x", "X"} /\ Run(p + 2, HexDigit) >= 1 THEN Run(p + 2, HexDigit)
@@ -217,7 +219,8 @@ FloatLit(k) ==
     IF m.type = "none" THEN None
     ELSE IF m.type = "hexadecimal" /\ m.hf = 0 /\ m.x = 0 THEN None   \* hexadecimal integer
     ELSE
-    LET d == IF m.type = "exponent" /\ ~GoodExponent(k.p + m.c)
+    LET d == IF (m.type = "exponent" \/ m.x > 0)
+                /\ ~GoodExponent(k.p + m.c, IF m.type = "hexadecimal" THEN {"p", "P"} ELSE {"e", "E"})
                 THEN <<Diag("BAD_EXPONENT", "Error", << <<k.l, ccol>> >>)>>
              ELSE IF m.type = "hexadecimal" /\ m.xs # 1
                 THEN <<Diag("MULTIPLE_X", "Error", << <<k.l, k.c + 1>> >>)>>
@@ -282,7 +285,8 @@ CharLit(k) ==
         kq == AdvancePlain(k, pl + 1)                 \* after the opening quote
         b  == CharBody(k, kq, Raw(k.p, pl + 1), 0)
         d  == b.d
-              \o (IF b.val = <<SQ, SQ>> THEN <<Diag("EMPTY_CHAR", "Error", << <<k.l, k.c>> >>)>> ELSE <<>>)
+              \o (IF b.n = 0 /\ Len(b.val) >= 2 /\ b.val[Len(b.val)] = SQ /\ b.val[Len(b.val) - 1] = SQ
+                  THEN <<Diag("EMPTY_CHAR", "Error", << <<k.l, k.c>> >>)>> ELSE <<>>)
               \o (IF b.n > 1 /\ b.val[Len(b.val)] = SQ     \* sic: also when the last character is an escaped quote
                   THEN <<Diag("CHAR_AS_STRING", "Error", << <<k.l, k.c>>, <<k.l, k.c>> >>)>> ELSE <<>>)
     IN IF Ch(k.p + pl) # SQ THEN None
